@@ -27,7 +27,7 @@ import (
 
 func init() { checks["c06"] = checkC06 }
 
-var c06Events = []string{"write", "bigwrite", "shrink", "restart", "kill", "pause", "stall-shrink", "fshrink", "oom", "refollow"}
+var c06Events = []string{"write", "bigwrite", "shrink", "restart", "kill", "pause", "stall-shrink", "fshrink", "oom", "refollow", "dirtykill"}
 
 type c06Run struct {
 	x        *Exec
@@ -98,7 +98,7 @@ func followerCaughtUp(c *Cli) bool {
 var c06Frozen = freezeAllBut("follow", "Serve#2", "Serve#4")
 
 func checkC06(job *Job, res *Result) {
-	res.Rule = "FAULT: initial follower state {empty, a true prefix of the leader's log, unrelated data (objects + channel), a non-empty log with an empty dataset, a > 512 KiB log that shares its first 600 kB with the leader and then diverges, a leader log with a command boundary exactly at the first checksum window (524288); thorough: the same with logs > 512 KiB so that the checksum search runs} x ALL event sequences of length <= D over {leader write, 300 kB leader write, leader AOFSHRINK to completion, follower clean restart, replication connection kill, follower paused during two leader writes, follower stalled mid-download across a leader write + AOFSHRINK + write, AOFSHRINK on the follower}; settle under virtual time; distinct = distinct (initial state, event sequence, final leader dump)"
+	res.Rule = "FAULT: initial follower state {empty, a true prefix of the leader's log, unrelated data (objects + channel), a non-empty log with an empty dataset, a > 512 KiB log that shares its first 600 kB with the leader and then diverges, a leader log with a command boundary exactly at the first checksum window (524288); thorough: the same with logs > 512 KiB so that the checksum search runs} x ALL event sequences of length <= D over {leader write, 300 kB leader write, leader AOFSHRINK to completion, follower clean restart, replication connection kill, follower paused during two leader writes, follower stalled mid-download across a leader write + AOFSHRINK + write, AOFSHRINK on the follower, follower over its memory limit, FOLLOW no one + FOLLOW again, connection kill while the follower's write buffer is unflushed and no flush before the reconnect}; oracle: caught_up, HEALTHZ, aof_size, AOFMD5 of the whole log, full dumps; settle under virtual time; distinct = distinct (initial state, event sequence, final leader dump)"
 	res.Assumptions = append(res.Assumptions,
 		"both servers run in one process on the in-memory network; time is virtual (1 s reconnect delay and 250 ms broadcasts cost nothing)",
 		"no TTLs in this part's workload (deadlines are the business of part c06ttl)",
@@ -365,6 +365,20 @@ func checkC06(job *Job, res *Result) {
 						r.write(false)
 						fc.Do("FOLLOW", "127.0.0.1", "9001")
 						r.atConn = r.nWrites
+					case "dirtykill":
+						// the link breaks while the follower still holds streamed commands in its
+						// write buffer (its once-a-second flusher has not come round yet, and nobody
+						// talks to the follower), and the follower reconnects before the buffer is
+						// written: whatever the reconnect does to the log, the buffer belongs to the
+						// old log
+						r.write(false)
+						vsched.Sleep(int64(20 * stdtime.Millisecond))
+						for _, c := range vnet.All {
+							if c.Owner == r.F.Name && !c.Closed() {
+								c.Kill()
+							}
+						}
+						vsched.Sleep(int64(1200 * stdtime.Millisecond))
 					case "oom":
 						// the follower is over its maxmemory limit while the leader writes, then recovers
 						// (the flag is what the frozen memory watcher would set)
@@ -411,6 +425,14 @@ func checkC06(job *Job, res *Result) {
 				}
 				if la, fa := asMap(r.lc.Do("SERVER"))["aof_size"], asMap(fc.Do("SERVER"))["aof_size"]; la != fa && !ownRewrite {
 					viol("aof-size-differs", fmt.Sprintf("follower reports caught_up with aof_size %s, the leader's is %s", fa, la))
+				}
+				if la, fa := asMap(r.lc.Do("SERVER"))["aof_size"], asMap(fc.Do("SERVER"))["aof_size"]; la == fa && !ownRewrite {
+					// the follower's log is a byte copy of the leader's: that is what the
+					// position / checksum comparison of the next reconnect (and a follower of
+					// this follower, and a restart without the leader) relies on
+					if lm, fm := r.lc.Do("AOFMD5", "0", la).String(), fc.Do("AOFMD5", "0", fa).String(); lm != fm {
+						viol("log-differs", fmt.Sprintf("follower reports caught_up with the leader's aof_size %s, but AOFMD5 0 %s is %s on the leader and %s on the follower", la, la, lm, fm))
+					}
 				}
 				ld := fullDump(r.lc)
 				fd := fullDump(fc)
